@@ -7,8 +7,12 @@
 (*         adb_info = _AdbTransactionInfo(self._local_id, ...)      Take                              *)
 (* followed by the OPEN packet (Open) and, later, the end of the stream (Close).  M stands for 2^32.  *)
 (* UseLock = FALSE is a sanity mutation of the model (not a finding): it must violate UniqueLive.     *)
+(* AllowFail: an open may fail after it took its id (the device refuses the OPEN, a later statement of *)
+(* _open raises): as built the id is simply spent.  GiveBack is a sanity mutation (seeded changes      *)
+(* C14-w9-c14-m1 / m3): the failing open hands its id back with a decrement under the lock - correct   *)
+(* when nothing else happened in between, a duplicate of a live id when another open did.              *)
 EXTENDS Naturals, FiniteSets, TLC, Json
-CONSTANTS Threads, M, Start, UseLock
+CONSTANTS Threads, M, Start, UseLock, AllowFail, GiveBack
 VARIABLES pc, cnt, my, lock, act
 vars == <<pc, cnt, my, lock, act>>
 Init == /\ pc = [t \in Threads |-> "idle"] /\ cnt = Start /\ my = [t \in Threads |-> 0] /\ lock = "free"
@@ -23,7 +27,11 @@ Wrap(t) == /\ pc[t] = "wrap" /\ cnt' = 1 /\ pc' = [pc EXCEPT ![t] = "take"] /\ A
 Take(t) == /\ pc[t] = "take" /\ my' = [my EXCEPT ![t] = cnt] /\ lock' = IF UseLock THEN "free" ELSE lock
            /\ pc' = [pc EXCEPT ![t] = "live"] /\ A(t, "Take") /\ UNCHANGED cnt
 Close(t) == /\ pc[t] = "live" /\ pc' = [pc EXCEPT ![t] = "closed"] /\ A(t, "Close") /\ UNCHANGED <<cnt, my, lock>>
-Next == \E t \in Threads : Acq(t) \/ Inc(t) \/ Cmp(t) \/ Wrap(t) \/ Take(t) \/ Close(t)
+\* the open fails after Take: the stream never comes to life
+Fail(t) == /\ AllowFail /\ pc[t] = "live" /\ pc' = [pc EXCEPT ![t] = IF GiveBack THEN "giveback" ELSE "closed"] /\ A(t, "Fail") /\ UNCHANGED <<cnt, my, lock>>
+GiveBackStep(t) == /\ pc[t] = "giveback" /\ (UseLock => lock = "free") /\ cnt' = cnt - 1        \* `with lock: counter -= 1`, one atomic step here
+                   /\ pc' = [pc EXCEPT ![t] = "closed"] /\ A(t, "GiveBack") /\ UNCHANGED <<my, lock>>
+Next == \E t \in Threads : Acq(t) \/ Inc(t) \/ Cmp(t) \/ Wrap(t) \/ Take(t) \/ Close(t) \/ Fail(t) \/ GiveBackStep(t)
 Spec == Init /\ [][Next]_vars
 Live == {t \in Threads : pc[t] = "live"}
 IdRange == \A t \in Live : 1 <= my[t] /\ my[t] <= M - 1
